@@ -182,7 +182,7 @@ Inductive afun :=
   | AFirst (k : nat)       (* lambda x: x[:k] *)
   | ARep                   (* lambda x: np.repeat(x, 2) *)
   | AScalar                (* a callable reducer returning a scalar, e.g. np.mean *)
-  | ADict                  (* dict(func1d=...): documented, raises TypeError in the code *)
+  | ADict                  (* dict(func1d=np.diff): the documented dictionary form (works since /repo 4e9c4b6) *)
   | AInterp (nold nnew : nat). (* interpDimension's weights (nold x nnew) *)
 (* output length on an input of length n; None = raises *)
 Definition afun_len (f : afun) (n : nat) : option nat :=
@@ -194,7 +194,7 @@ Definition afun_len (f : afun) (n : nat) : option nat :=
   | AFirst k => Some (Nat.min k n)
   | ARep => Some (2 * n)
   | AScalar => Some 1
-  | ADict => None
+  | ADict => Some (n - 1)
   | AInterp nold nnew => if Nat.eqb n nold || Nat.eqb n 1 || Nat.eqb nold 1 then Some nnew else None
   end.
 (* does np.apply_along_axis drop the axis (scalar result)? *)
@@ -379,7 +379,7 @@ Fixpoint slice_src (ss : list (name * sel)) (fancy : bool) (ds : list name) (sh 
       | None => Ok (n :: r)
       | Some s => do c <- sel_count n s;
                   match s with
-                  | SInt _ => Ok (if fancy then 1 :: r else r)
+                  | SInt _ => Ok (if fancy then r else 1 :: r)   (* per-axis selection keeps the axis ([i]); point path applies it as a scalar *)
                   | SSlice _ _ _ => Ok (c :: r)
                   | SList _ => Ok (if fancy then r else c :: r)
                   end
@@ -667,3 +667,9 @@ Definition unlim_kept_op (o : op) (T T' : dimtab) : bool :=
   | ORenameDim prs => unlim_renamedb (rn prs) T T'
   | _ => unlim_keptb T T'
   end.
+
+(* sliceDimensions with several index arrays creates POINTS as a non-unlimited dimension: the unlimited-flag clause
+   needs that no unlimited dimension of that name exists already *)
+Definition slice_unl_ok (f : file) (ss : list (name * sel)) : bool :=
+  negb (Nat.ltb 1 (length (filter (fun p => is_arr (snd p)) ss)))
+  || match lookup n_points (fdims f) with Some (_, true) => false | _ => true end.
